@@ -52,6 +52,23 @@ CLAIMED = {
    note='Trusted: Coq kernel, translator, hand models (correspondence-checked). The search is exploration, not proof; the evidence lists which functions are under a theorem.',
    technique='Coq safety proofs for modelled components + structured mutation search on the implementation',
    ref='DESIGN.md section 6 C03'),
+ 'C06': dict(
+   text='Coq theorems over the hand model of composite_frame / read_frame (Model/Anim.v, repaired tree): for every valid animation the k-th frame delivered equals the '
+        'rendering of the container-spec canvas fold (background in B,G,R,A order; dispose exactly the previous rectangle; overwrite or blend) and its duration '
+        '(read_frame_spec, play_is_shown); pixel-wise characterisation of every loop nest of composite_frame; non-blended pixels replace exactly, transparent blended pixels '
+        'leave the canvas unchanged, blend within the C12 bounds; the opaque-blended clause is refuted (known finding F14) with the exact behaviour on that class proved.',
+   note='Trusted: Coq kernel; hand model tied by correspondence (public API on generated animations + hook verif::composite_frame); frame payload decoding and byte-level ANMF '
+        'chunk parsing are abstracted (frames are given decoded; C01/C02/C05/C08 speak about those); canvas bound w*h*4 < 2^32 (F11).',
+   technique='Coq proof (fold refinement over hand model) + correspondence check + independent canvas-model search',
+   ref='DESIGN.md section 6 C06'),
+ 'C07': dict(
+   text='Coq theorem history_independent: for every valid animation and every sequence over {read_frame, reset_animation, read_image, caller buffer fill} the trace of the '
+        'AnimationState machine equals the trace of a playback cursor over what a fresh decoder shows; the three clauses of the property are corollaries '
+        '(frames after reset, read_image = first frame and position unchanged, NoMoreFrames leaves the buffer alone).',
+   note='Trusted: Coq kernel; hand model of the state machine (Model/Anim.v, repaired tree: F15) tied by correspondence on random call sequences through the public API; '
+        'payload decoding abstracted as in C06.',
+   technique='Coq proof (state-machine invariant by induction over call sequences) + correspondence check on op sequences',
+   ref='DESIGN.md section 6 C07'),
 }
 PENDING = {}
 
